@@ -27,7 +27,7 @@ def build():
 # ----------------------------------------------------------------------------- runner
 def _limit_child():
     # address-space cap for the child: a subject that blows up memory must abort itself, not the box
-    gb = int(os.environ.get('XR_AS_GB', '6'))
+    gb = int(os.environ.get('XR_AS_GB', '3'))
     resource.setrlimit(resource.RLIMIT_AS, (gb << 30, gb << 30))
     resource.setrlimit(resource.RLIMIT_CORE, (0, 0))
 
